@@ -15,12 +15,13 @@ THEOREMS = [
     "Typedpy.C07.no_collision_if_injective",
     "Typedpy.C07.mapper_round_trip",
     "Typedpy.C07.mapper_round_trip_serialize",
+    "Typedpy.C07.absent_field_not_captured",
     "Typedpy.C07.flat_round_trip",
     "Typedpy.C07.bad_mapper_key_rejected",
     "Typedpy.C07.good_mapper_keys_accepted",
-    "Typedpy.C07.fallback_capture_counterexample",
-    "Typedpy.C07.strict_mapping_no_capture_example",
-    "Typedpy.C07.dns_blocks_deserialize_counterexample",
+    "Typedpy.C07.fallback_capture_fixed",
+    "Typedpy.C07.dns_deserialize_fixed",
+    "Typedpy.C07.dns_populated_outside_domain",
     "Typedpy.C07.nested_resync_counterexample",
     "Typedpy.C07.C07_statement_false",
     "Typedpy.C07.round_trip_example",
@@ -39,7 +40,7 @@ ASSUMPTIONS = [
     "rename-only mappers: no FunctionCall / Constant values, no Map-nested structures, no _deserialization_mapper, single inheritance",
     "scalar fields are Integer fields; Set[...] fields are compared order-insensitively; default class options (additional properties allowed, no compact form)",
     "PYTHONHASHSEED=0 (the order of instance attributes, which decides the winner of a key collision, comes from the constructor signature)",
-    "round trip demanded only where: no populated field is dropped, populated keys distinct and not equal to an absent field's key, no dotted key — at every level",
+    "round trip demanded only where: no populated field is dropped (an instance with a populated DoNotSerialize field is never judged for round trip), populated keys distinct and not equal to an absent field's key, no dotted key — at every level",
 ]
 
 
@@ -93,14 +94,8 @@ def judge(case, impl, model):
         r = impl["deser"]
         good = "ok" in r and r.get("equal") and S.canon_inst(r["ok"], cd) == S.canon_inst(impl["inst_canon"], cd)
         if not good:
-            if hyp["rt"]:
-                key = "roundtrip:unexplained"
-            elif hyp["rtNoCap"]:
-                key = "fallback-capture"
-            elif not hyp["keys"]:
-                key = "dns-blocks-deserialize"
-            else:
-                key = "nested-resync"
+            # dom and not rt  <=>  Sync fails at some (necessarily nested) level
+            key = "roundtrip:unexplained" if hyp["rt"] else "nested-resync"
             fails.append((key, "deserialize(serialize(x)) != x: document " + json.dumps(real_doc)[:200] + " gave "
                           + json.dumps(r)[:300] + " for instance " + json.dumps(case["kw"])[:200]
                           + " mappers " + json.dumps([lv["mapper"] for lv in cd["levels"]])[:300]))
